@@ -33,7 +33,8 @@ def C(curve):
 def scalar(draw, n, bits):
     k = draw(st.integers(0, 11))
     if k == 0:
-        return draw(st.sampled_from([0, 1, 2, 3, n - 2, n - 1, n, n + 1, 2 * n, 2 * n - 1, (1 << bits) - 1, 1 << bits, (1 << bits) + 1, n // 2, n // 2 + 1]))
+        return draw(st.sampled_from([0, 1, 2, 3, 4, 8, n - 2, n - 1, n, n + 1, 2 * n, 2 * n - 1, 4 * n, 8 * n, 8 * n + 1, 16 * n, (1 << bits) - 1, 1 << bits, (1 << bits) + 1,
+                                     n // 2, n // 2 + 1]))
     if k == 1:
         return 1 << draw(st.integers(0, 2 * bits))
     if k == 2:
@@ -326,17 +327,29 @@ def run_mont(case, rec):
     kk, R = libcall(lambda: P * k, allowed=(ValueError,), bucket="mont/%s/mul" % curve)
     if kk == "exc":
         raise Violation("mont/%s/scalar-refused" % curve, "scalar multiplication by a %d-bit scalar raised: %s" % (k.bit_length(), R), **info)
-    exp = ec.mont_ladder(c, k, u)
-    if R.is_point_at_infinity():
+    # projective ladder: Z == 0 <=> the result is the neutral element (exact for every k when u != 0, Bernstein 2006 Thm B.1);
+    # u = 0 with Z != 0 is the point of order two, which is *not* the neutral element
+    X, Z = ec._ladder_xz(c, k, u)
+    exp = X * pow(Z, p - 2, p) % p
+    true_inf = Z % p == 0
+    lib_inf = bool(R.is_point_at_infinity())
+    if u % p == 0:
+        # base point of order two: the x-only formulas degenerate (the RFC 7748 function returns 0 in every case); only demand u = 0 / infinity
+        if not lib_inf and int(R.x) != 0:
+            raise Violation("mont/%s/wrong-result" % curve, "k*(0,0) has u=%d" % int(R.x), **info)
         got = 0
-        # the ladder returns 0 for the point at infinity; u = 0 itself is the order-2 point: disambiguate with 2*k
-        exp_inf = ec.mont_ladder(c, 2 * k, u) == 0 and (exp == 0)
-        if not exp_inf:
-            raise Violation("mont/%s/wrong-infinity" % curve, "k*P reported as point at infinity, ladder gives u=%d" % exp, **info)
+    elif lib_inf:
+        got = 0
+        if not true_inf:
+            raise Violation("mont/%s/wrong-infinity" % curve, "k*P reported as point at infinity, the ladder gives u=%d (Z != 0)" % exp, **info)
     else:
         got = int(R.x)
+        if true_inf:
+            raise Violation("mont/%s/infinity-not-reported" % curve, "k*P is the neutral element (Z = 0 in the ladder) but the result is an ordinary point with u=%d" % got, **info)
         if got != exp:
             raise Violation("mont/%s/wrong-result" % curve, "k*P has u=%d, RFC 7748 ladder gives %d" % (got, exp), **info)
+    if true_inf:
+        rec.event("mont:%s:neutral-result" % curve)
     if int(P.x) != u % p:
         raise Violation("mont/%s/operand-modified" % curve, "scalar multiplication changed its operand", **info)
     rec.nt(curve, uk, sclass(k, c["L"], c["bits"]))
